@@ -21,41 +21,8 @@ def _prop_at(case):
     return None
 
 
-def _gonil(case, trap):
-    return _lat(case) and case.get("mode") == "go" and case["call"].get("trap") == trap and case["call"].get("rkind") == "gonil"
-
-
-def pred_go_ownkeys_nil(case, rec, exp):
-    """Go ProxyTrapConfig.OwnKeys returning nil: nil pointer dereference escapes as a host panic"""
-    return _gonil(case, "ownKeys") and rec.get("obs", "").startswith("HOSTPANIC") and "nil pointer" in rec.get("obs", "")
-
-
-def pred_go_construct_nil(case, rec, exp):
-    """Go ProxyTrapConfig.Construct returning nil: `new proxy()` yields a nil object instead of TypeError"""
-    return _gonil(case, "construct") and '"obj":99' in rec.get("obs", "")
-
-
-def pred_setproto_msg(case, rec, exp):
-    """a failing Object.setPrototypeOf / Reflect.setPrototypeOf-throwing path stringifies the object for its message and
-    runs user getters: both sides TypeError, only the getter events differ"""
-    m = re.search(r"^DIFF: first difference at op (\d+): direct=setproto:TypeError\|([^ ]*) proxied=setproto:TypeError\|([^ ]*)$",
-                  rec.get("obs", ""))
-    if not (isinstance(case, dict) and case.get("kind") == "hist" and m):
-        return False
-    i = int(m.group(1))
-    ops = case.get("ops", [])
-    if i >= len(ops) or ops[i].get("o") != "setproto":
-        return False
-    dl = [e for e in m.group(2).split(",") if e]
-    pl = [e for e in m.group(3).split(",") if e]
-    return dl != pl and len(dl) > 0 and all(e.startswith("get@") for e in dl + pl)
-
-
-PREDICATES = {
-    "C11.setprototypeof_failure_calls_getter": pred_setproto_msg,
-    "C11.go_ownkeys_nil_panics_host": pred_go_ownkeys_nil,
-    "C11.go_construct_nil_leaks_nil_object": pred_go_construct_nil,
-}
+# no open finding: no predicate
+PREDICATES = {}
 
 
 # ------------------------------------------------------------------------------------------------
